@@ -504,6 +504,14 @@ def gen_random(rng, big=False):
             ended.append(t)
             g.ops.append(("END", t))
     tail_end = [t for t in alive if t != 0 and rng.random() < 0.5]
+    # just before the end: leave work in every place (FIFO, buf_write_list, a writer's lists)
+    if rng.random() < 0.5:
+        for _ in range(rng.randrange(2, 7)):
+            g.prod_step(rng.choice(alive))
+        g.ops += [("M",)] * rng.randrange(0, 4)
+        g.ops += [("W", rng.randrange(nw))] * rng.randrange(0, 2)
+        for _ in range(rng.randrange(1, 5)):
+            g.prod_step(rng.choice(alive))
     ops = g.finish(tail_end, flush_w=rng.randrange(0, 4), nw=nw)
     return {"bufsize": 16 + cap, "nw": nw, "nt": nt, "ops": ops, "kind": "random", "args": args,
             "tags": ["capacity=%d" % cap] + (["args"] if args else ["per-buffer=%d" % (cap // 16)])
@@ -691,6 +699,47 @@ def observed_tags(case, res):
     return sorted(tags)
 
 
+def parse_rec_part(case, s):
+    """recorder part of a snapshot -> (len shmem_list, len buf_write_list, busy writers, buffers handed over directly)"""
+    i = 0
+    for t in range(case["nt"]):
+        i += 1 if s[i] == 999 else 3 + 2 * s[i]
+    i += 1
+    nshl = s[i]
+    i += 1 + nshl
+    nbwl = s[i]
+    i += 1 + nbwl + 1
+    busy = direct = 0
+    for w in range(case["nw"]):
+        busy += 1 if s[i] else 0
+        direct += s[i + 1]
+        i += 2 + s[i + 1]
+    return nshl, nbwl, busy, direct
+
+
+def stop_tags(case, res):
+    """in which situation stop_all_writers found the recorder (the case splits of C03_can_finish)"""
+    mo = model_ops(case["ops"])
+    if ("STOP",) not in mo or not res["snaps"]:
+        return []
+    k = mo.index(("STOP",))
+    if k == 0 or k > len(res["snaps"]):
+        return []
+    nshl, nbwl, busy, direct = parse_rec_part(case, res["snaps"][k - 1])
+    tags = []
+    if busy:
+        tags.append("stop:writer-busy")
+    if direct:
+        tags.append("stop:direct-bufs-pending")
+    if nbwl:
+        tags.append("stop:buf_write_list-nonempty")
+    if nshl > 1:
+        tags.append("stop:several-unfinished-buffers")
+    if not (busy or nbwl):
+        tags.append("stop:quiet")
+    return tags
+
+
 # ---------------------------------------------------------------- the check
 def build_harnesses(ctx):
     objdir = build.get_build("plain", ctx.log)
@@ -759,9 +808,9 @@ def run(ctx):
     cases += directed(rng)
     tl = tail_loss_case(rng)
     cases.append(tl)
-    for _ in range(ctx.n(40, 320)):
+    for _ in range(ctx.n(32, 250)):
         cases.append(gen_random(rng, big=ctx.thorough()))
-    for _ in range(ctx.n(16, 110)):
+    for _ in range(ctx.n(12, 85)):
         cases.append(gen_soak(rng, big=ctx.thorough()))
     results = []
     kept = []
@@ -781,7 +830,7 @@ def run(ctx):
         if any(e[0] == "E" and len(e[1]) in (24, 32) and any(e[1][-4:]) and (struct.unpack("<Q", e[1][8:16])[0] >> 16) - r["base"] - 4 in (256, 5 * 256, 7 * 256)
                for l in r["logs"] for e in l):
             argtags.append("padding-nonzero-observed")
-        tags = list(c["tags"]) + argtags + observed_tags(c, r) + ["mode:" + ("soak" if c["kind"] == "soak" else "step"),
+        tags = list(c["tags"]) + argtags + observed_tags(c, r) + stop_tags(c, r) + ["mode:" + ("soak" if c["kind"] == "soak" else "step"),
                                                         "writers=%d" % c["nw"], "threads=%d" % c["nt"]]
         ctx.case(key=(c["kind"], c["bufsize"], c["nw"], c["nt"], tuple(c["ops"])), nontrivial=nrec >= 4, tags=tags,
                  size=len(c["ops"]),
@@ -800,6 +849,7 @@ def run(ctx):
         allm += m
         allv += v
     ctx.extra["disagreements_checked"] = len(allm)
+    ctx.extra["snapshots_compared"] = sum(len(r["snaps"]) for r in results)
     ctx.extra["cases_step"] = sum(1 for c in cases if c["kind"] != "soak")
     ctx.extra["cases_soak"] = sum(1 for c in cases if c["kind"] == "soak")
     # the loss that is never reported (refuted theorem): witness
